@@ -326,7 +326,17 @@ fn my_field_desc(rng: &mut Rng, mapped: &[S], extra: &[S]) -> S {
 	if rng.chance(2, 5) { d.push(*rng.pick(&cps_str("BCDFIJSZ")[..])); return d; }
 	d.push(L);
 	let k = rng.below(10);
-	if k < 5 && !mapped.is_empty() { d.extend(rng.pick(mapped).clone()); }
+	if k < 5 && !mapped.is_empty() {
+		let mut name = rng.pick(mapped).clone();
+		// an inner class WITHOUT an entry of a class that has one (seed C08-b7: a lookup that falls back to the outer class's entry
+		// invents a name for it); one and two levels deep, anonymous and named, non-ASCII
+		if rng.chance(1, 4) {
+			let mut inner = name.clone();
+			inner.extend(cps_str(*rng.pick(&["$1", "$Un", "$\u{3a9}x", "$1$Deep", "$Un$2"][..])));
+			if !mapped.contains(&inner) { name = inner; }
+		}
+		d.extend(name);
+	}
 	else if k < 7 && !extra.is_empty() { d.extend(rng.pick(extra).clone()); }
 	else { d.extend(cps_str(*rng.pick(&UNMAPPED[..]))); }
 	d.push(SEMI);
